@@ -67,15 +67,21 @@ type cmismatch struct {
 }
 
 type cresult struct {
-	ID       int         `json:"id"`
-	Cap      int         `json:"cap"`
-	Steps    int         `json:"steps"`
-	Evicts   int         `json:"evicts"`
-	Latches  int         `json:"latches"`
-	OK       bool        `json:"ok"`
-	Mismatch *cmismatch  `json:"mismatch,omitempty"`
-	Panic    string      `json:"panic,omitempty"`
-	Ops      [][2]string `json:"ops,omitempty"` // only for failing cases
+	ID      int  `json:"id"`
+	Cap     int  `json:"cap"`
+	Steps   int  `json:"steps"`
+	Evicts  int  `json:"evicts"`
+	Latches int  `json:"latches"`
+	OK      bool `json:"ok"` // no drift from the model and no property break
+	// Drift is the first step at which the real counter left the model (counts, order of the
+	// keys, victim, structure of the lists, panic). The replay goes on after it.
+	Drift *cmismatch `json:"drift,omitempty"`
+	// Prop is the first break of a property of the statement, judged on the real object only:
+	// size <= capacity, count of every tracked key = accesses since the real counter admitted it,
+	// every evicted key had the lowest count among the keys tracked at that moment.
+	Prop  *cmismatch  `json:"prop,omitempty"`
+	Panic string      `json:"panic,omitempty"`
+	Ops   [][2]string `json:"ops,omitempty"` // only for cases that are not OK
 }
 
 func nodesEqual(want []cnode, got []hotkey.VerifFreqNode) bool {
@@ -102,29 +108,52 @@ func mapsEqual(a kmap, b map[string]uint64) bool {
 	return true
 }
 
+func copyCounts(m map[string]uint64) map[string]uint64 {
+	out := make(map[string]uint64, len(m))
+	for k, v := range m {
+		out[k] = v
+	}
+	return out
+}
+
 func replayCounter(id int, steps []cstep) (res cresult) {
 	res = cresult{ID: id, Steps: len(steps), OK: true}
 	if len(steps) == 0 {
 		return
 	}
 	res.Cap = steps[0].Cap
-	fail := func(i int, field string, want, got interface{}) {
+	notOK := func() {
+		if res.OK {
+			for _, s := range steps {
+				res.Ops = append(res.Ops, [2]string{s.Op, s.K})
+			}
+		}
 		res.OK = false
-		res.Mismatch = &cmismatch{Step: i, Op: steps[i].Op + " " + steps[i].K, Field: field, Want: want, Got: got}
-		for _, s := range steps {
-			res.Ops = append(res.Ops, [2]string{s.Op, s.K})
+	}
+	drift := func(i int, field string, want, got interface{}) {
+		if res.Drift == nil {
+			notOK()
+			res.Drift = &cmismatch{Step: i, Op: steps[i].Op + " " + steps[i].K, Field: field, Want: want, Got: got}
+		}
+	}
+	prop := func(i int, field string, want, got interface{}) {
+		if res.Prop == nil {
+			notOK()
+			res.Prop = &cmismatch{Step: i, Op: steps[i].Op + " " + steps[i].K, Field: field, Want: want, Got: got}
 		}
 	}
 	cur := 0
 	defer func() {
 		if r := recover(); r != nil {
 			res.Panic = fmt.Sprint(r)
-			fail(cur, "panic", "no panic", res.Panic)
+			drift(cur, "panic", "no panic", res.Panic)
 		}
 	}()
 	freed := 0
 	c := hotkey.NewCounter(uint8(res.Cap), func() { freed++ })
 	prev := hotkey.VerifSnapshot(c)
+	// accesses of every key since the REAL counter last admitted it
+	since := map[string]uint64{}
 	for i, s := range steps {
 		cur = i
 		wantFreed := freed
@@ -139,47 +168,27 @@ func replayCounter(id int, steps []cstep) (res cresult) {
 			c.Free()
 			wantFreed++
 		default:
-			fail(i, "op", "Incr|Latch|Free", s.Op)
+			drift(i, "op", "Incr|Latch|Free", s.Op)
 			return
 		}
 		snap := hotkey.VerifSnapshot(c)
-		if len(snap.Integrity) > 0 {
-			fail(i, "integrity", "sound lists", snap.Integrity)
-			return
-		}
-		if s.Op == "Latch" && !mapsEqual(s.Out, latched) {
-			fail(i, "latched", s.Out, latched)
-			return
-		}
-		if freed != wantFreed {
-			fail(i, "freeCb", wantFreed, freed)
-			return
-		}
-		if snap.Size != s.Size {
-			fail(i, "size", s.Size, snap.Size)
-			return
-		}
-		if snap.Size > res.Cap {
-			fail(i, "bounded", res.Cap, snap.Size)
-			return
-		}
-		if !mapsEqual(s.Counts, snap.Counts) {
-			fail(i, "counts", s.Counts, snap.Counts)
-			return
-		}
-		if !nodesEqual(s.Nodes, snap.Nodes) {
-			fail(i, "order", s.Nodes, snap.Nodes)
-			return
-		}
-		// the victim of this step: the key that disappeared on an Incr
-		victim := ""
-		if s.Op == "Incr" {
+
+		// ---- the statement, judged on the real object
+		switch s.Op {
+		case "Incr":
+			if _, tracked := prev.Counts[s.K]; tracked {
+				since[s.K]++
+			} else {
+				since[s.K] = 1
+			}
+			var victims []string
 			for k := range prev.Counts {
 				if _, ok := snap.Counts[k]; !ok {
-					victim = k
+					victims = append(victims, k)
 				}
 			}
-			if victim != "" {
+			sort.Strings(victims)
+			if len(victims) > 0 {
 				res.Evicts++
 				min := ^uint64(0)
 				for _, v := range prev.Counts {
@@ -187,15 +196,61 @@ func replayCounter(id int, steps []cstep) (res cresult) {
 						min = v
 					}
 				}
-				if prev.Counts[victim] != min {
-					fail(i, "evicts-minimum", min, prev.Counts[victim])
-					return
+				for _, v := range victims {
+					delete(since, v)
+					if prev.Counts[v] != min {
+						prop(i, "evicts-minimum", map[string]interface{}{"lowest_count": min, "tracked_before": copyCounts(prev.Counts)},
+							map[string]interface{}{"evicted": v, "count": prev.Counts[v]})
+					}
 				}
 			}
+			if _, ok := snap.Counts[s.K]; !ok && res.Cap > 0 {
+				prop(i, "counts", "accessed key tracked", "accessed key "+s.K+" not tracked after Incr")
+			}
+		case "Latch":
+			if !reflect.DeepEqual(map[string]uint64(latched), since) && !(len(latched) == 0 && len(since) == 0) {
+				prop(i, "latched", copyCounts(since), latched)
+			}
+			since = map[string]uint64{}
+		case "Free":
+			since = map[string]uint64{}
 		}
-		if victim != s.Victim {
-			fail(i, "victim", s.Victim, victim)
-			return
+		if snap.Size > res.Cap || len(snap.Counts) > res.Cap {
+			prop(i, "bounded", res.Cap, snap.Size)
+		}
+		if !reflect.DeepEqual(snap.Counts, since) && !(len(snap.Counts) == 0 && len(since) == 0) {
+			prop(i, "counts", copyCounts(since), copyCounts(snap.Counts))
+			// go on from what the counter says, so that one slip is reported once
+			since = copyCounts(snap.Counts)
+		}
+
+		// ---- conformance with the model (only until the first drift: afterwards the model's
+		// expectation describes a different counter)
+		if res.Drift == nil {
+			victim := ""
+			if s.Op == "Incr" {
+				for k := range prev.Counts {
+					if _, ok := snap.Counts[k]; !ok {
+						victim = k
+					}
+				}
+			}
+			switch {
+			case len(snap.Integrity) > 0:
+				drift(i, "integrity", "sound lists", snap.Integrity)
+			case s.Op == "Latch" && !mapsEqual(s.Out, latched):
+				drift(i, "latched", s.Out, latched)
+			case freed != wantFreed:
+				drift(i, "freeCb", wantFreed, freed)
+			case snap.Size != s.Size:
+				drift(i, "size", s.Size, snap.Size)
+			case !mapsEqual(s.Counts, snap.Counts):
+				drift(i, "counts", s.Counts, snap.Counts)
+			case !nodesEqual(s.Nodes, snap.Nodes):
+				drift(i, "order", s.Nodes, snap.Nodes)
+			case victim != s.Victim:
+				drift(i, "victim", s.Victim, victim)
+			}
 		}
 		prev = snap
 	}
